@@ -92,9 +92,8 @@ impl Core {
                     return "PANIC".to_string();
                 }
                 if let Some(u) = &s.unparsable {
-                    let z0 = s.objs.iter().any(|oi| oi.toi.is_some() && oi.tl == Some(0) && matches!(oi.oti.sch, Scheme::Raptor | Scheme::RaptorQ) && oi.oti.ifti);
                     o.fail(
-                        &format!("{}:{}", s.sp.prop, if z0 { "raptor-empty-object-z0" } else { "unparsable-own-packet" }),
+                        &format!("{}:unparsable-own-packet", s.sp.prop),
                         &format!("flute's receiver-side parser rejects a packet of flute's sender: {}", u),
                     );
                 }
@@ -121,7 +120,7 @@ impl Core {
                     .collect::<Vec<_>>()
                     .join(" "),
             },
-            "full" | "probe" | "mask" | "dup" | "join" => {
+            "full" | "probe" | "mask" | "dup" | "join" | "jprobe" => {
                 let s = match &self.sess {
                     Some(s) => s,
                     None => return "no-session".into(),
@@ -156,7 +155,7 @@ impl Core {
                             return "bad-op".into();
                         }
                         match deadline(s, off) {
-                            None => return "short".into(),
+                            None => return if cmd == "jprobe" { "done".into() } else { "short".into() },
                             Some(d) => (off..d).collect(),
                         }
                     }
@@ -164,7 +163,7 @@ impl Core {
                 let rx = run_rx(s, &sel);
                 // `probe`: the run is judged by the oracle only (inputs in the region of a defect whose
                 // effect depends on third-party library internals: D15 inflate hang, D18 garbage inflate)
-                let obs = if cmd == "probe" { "done".to_string() } else { observe(s, &rx) };
+                let obs = if cmd == "probe" || cmd == "jprobe" { "done".to_string() } else { observe(s, &rx) };
                 if let Some(p) = &rx.panic {
                     o.fail(&format!("{}:receiver-panic", s.sp.prop), &format!("receiver panics at {}", p));
                     return obs;
@@ -177,7 +176,7 @@ impl Core {
                     }
                     "C02" => self.oracle_c02(s, &rx, &sel, o),
                     "C16" => {
-                        if cmd == "join" {
+                        if cmd == "join" || cmd == "jprobe" {
                             self.oracle_c16(s, &rx, o)
                         }
                     }
@@ -209,9 +208,6 @@ impl Core {
         if (oi.p.src == "stream" || oi.p.src == "sparse" || oi.p.src == "file") && oi.p.cenc != "null" {
             v.push("C01:D18-stream-cenc");
         }
-        if matches!(oi.oti.sch, Scheme::Raptor | Scheme::RaptorQ) && oi.tl == Some(0) && oi.oti.ifti {
-            v.push("C01:raptor-empty-object-z0");
-        }
         v
     }
 
@@ -228,7 +224,7 @@ impl Core {
             .filter(|c| *c != "C01:D18-stream-cenc")
             .next()
             .unwrap_or("C01:sender-panic");
-        let cls = if s.sp.prop == "C01" { cls.to_string() } else { format!("{}:sender-panic", s.sp.prop) };
+        let cls = if s.sp.prop == "C01" || cls != "C01:sender-panic" { cls.to_string() } else { format!("{}:sender-panic", s.sp.prop) };
         o.fail(&cls, &format!("Sender::read panics at {}", p));
     }
 
